@@ -39,7 +39,7 @@ SCORERS = ("neg_mean_squared_error", "neg_root_mean_squared_error", "r2", None)
 
 def gen(rng, tier, index):
     hi = 30 if tier == "quick" else 60
-    shape = gens.pick(rng, ("tall", "tall", "wide", "deficient", "deficient", "scaled"))
+    shape = gens.pick(rng, ("tall", "tall", "wide", "deficient", "deficient", "scaled", "badly_scaled"))
     if index % 25 == 3:
         return _gen_indicator(rng)
     if shape == "wide":
@@ -55,27 +55,34 @@ def gen(rng, tier, index):
         X = B @ mix
     if shape == "scaled":
         X = X * 10.0 ** rng.uniform(-2, 2, size=m)
+    colscale = np.ones(m)
+    if shape == "badly_scaled":
+        # one or two features in tiny units (7 to 8.7 decades below the others) that matter for the target: far above
+        # the numerical rank (max(n, m) * eps ~ 1e-14), so the documented solution keeps their directions
+        tiny = rng.choice(m, size=int(min(m - 1, rng.integers(1, 3))), replace=False)
+        colscale[tiny] = 10.0 ** -rng.uniform(7.0, 8.7, size=len(tiny))
+        X = X * colscale
     s1 = np.linalg.svd(X, compute_uv=False)[0]
     X = X / s1 * float(10.0 ** rng.uniform(-2, 3))
     xint = None
-    if rng.random() < 0.15:  # whole-number features (counts), handed over with an integer dtype
+    if rng.random() < 0.15 and shape != "badly_scaled":  # whole-number features (counts), handed over with an integer dtype
         X = np.round(X / float(np.abs(X).max()) * 60.0)
         if np.linalg.matrix_rank(X) == min(X.shape) or shape == "deficient":
             xint = gens.pick(rng, ("int64", "int32"))
         X = X * 1.0
     p = int(gens.pick(rng, (1, 2, 3)))
-    W = rng.normal(size=(m, p))
+    W = rng.normal(size=(m, p)) / colscale[:, None]
     Y = X @ W
     Y = Y + float(gens.pick(rng, (0.01, 0.1, 0.5))) * max(float(np.abs(Y).std()), 1e-12) * rng.normal(size=(n, p))
     atype = gens.pick(rng, ("absolute", "relative"))
     na = int(rng.integers(2, 8))
     if atype == "absolute":
         alphas = np.sort(10.0 ** rng.uniform(-12, 3, size=na))
-        if rng.random() < 0.3:
+        if rng.random() < (0.3 if shape != "badly_scaled" else 0.8):
             alphas[0] = 1e-30
     else:
         alphas = np.sort(10.0 ** rng.uniform(-9, -0.01, size=na))
-        if rng.random() < 0.4:
+        if rng.random() < (0.4 if shape != "badly_scaled" else 0.8):
             alphas[0] = 0.0
     if p == 1 and rng.random() < 0.5:
         Y = Y[:, 0].copy()  # a single target given as a 1-D array
@@ -174,7 +181,7 @@ def _cv_object(cv, n):
 
 def _num_rank_parts(X):
     U, s, Vt = np.linalg.svd(X, full_matrices=False)
-    keep = s > 1e-9 * s[0]
+    keep = s > 1e-11 * s[0]
     return U[:, keep], s[keep], Vt[keep], s
 
 
@@ -204,7 +211,9 @@ def _metric(scoring, y_true, y_pred):
 
 def _clean_spectrum(s):
     s = np.asarray(s)
-    return bool(np.all((s >= 1e-6 * s[0]) | (s <= 1e-12 * s[0])))
+    # every singular value is clearly a direction of the data (more than four decades above the documented cut
+    # max(n, m) * eps * s_max) or clearly rounding noise
+    return bool(np.all((s >= 3e-10 * s[0]) | (s <= 1e-12 * s[0])))
 
 
 def run(case, j):
@@ -321,8 +330,8 @@ def run(case, j):
     if method == "cutoff":
         for a_ in scaled:
             for s_ in ((sf,) if exact else (s1, s2, sf)):
-                big = s_[s_ > 1e-9 * s_[0]]
-                if np.any(np.abs(big - a_) <= 1e-9 * big):
+                big = s_[s_ > 1e-11 * s_[0]]
+                if np.any(np.abs(big - a_) <= 1e-9 * big + 1e-13 * s_[0]):  # small singular values are known to eps x the largest
                     raise Skip("cutoff-coincides-with-singular-value")
     want = []
     for a_ in scaled:
@@ -345,12 +354,17 @@ def run(case, j):
     coef = np.asarray(est.coef_)
     j.ok("coef_ has shape (n_targets, n_features), or (n_features,) for a 1-D target", coef.shape == ((m,) if oned else (Y.shape[1], m)), coef.shape)
     coef = coef.reshape(-1, m)
-    smin = sf[sf > 1e-9 * sf[0]].min()
+    smin = sf[sf > 1e-11 * sf[0]].min()
     bound = 10 * np.linalg.norm(Y) / smin
     j.ok("coefficients stay bounded (null directions excluded)", np.linalg.norm(coef) <= bound, {"norm": float(np.linalg.norm(coef)), "bound": float(bound), "alpha": float(scaled[ia])})
     if coef.shape == Wf.T.shape:
         cond = sf[0] / smin
         j.close("coef_ == regularised solution on the full data for alpha_", coef, Wf.T, 1e-7 * max(float(np.abs(Wf).max()), 1e-300) * max(1.0, cond * 1e-3), {"alpha": float(scaled[ia]), "method": method})
+        # the fitted values are insensitive to the scaling of the columns: every direction above the numerical rank
+        # contributes its full share (times the filter factor of alpha_)
+        j.close("X @ coef_ == fitted values of the regularised solution on the full data", X @ coef.T, X @ Wf, 1e-7 * max(float(np.abs(Y).max()), 1e-300) * max(1.0, cond * 1e-7), {"alpha": float(scaled[ia]), "method": method, "cond": float(cond)})
+        if cond > 2e7:
+            j.note("directions_more_than_7_decades_below_the_largest")
     pz = np.asarray(est.predict(Z))
     j.ok("predict returns one column per target (1-D for a 1-D target)", pz.shape == ((len(Z),) if oned else (len(Z), Y.shape[1])), pz.shape)
     j.close("predict(Z) == Z @ coef_.T", pz.reshape(len(Z), -1), Z @ coef.T, 1e-9 * max(float(np.abs(Z @ coef.T).max()), 1e-300))
